@@ -121,9 +121,14 @@ pub fn c05(ctx: &Ctx) -> i32 {
     let out = run_book_spec(ctx, &spec);
     let espec = EnvSpec { check: "c05", flags: E_OVERFULL, env_types: all_types(), sessions: ctx.tier.pick(15_000, 400_000), max_steps: 25, toggle_rate: 0.03, offgrid_rate: 0.0 };
     let eout = run_env_spec(ctx, &espec);
+    // thousands of orders queued at one time-stamp, executed by one aggressor in the order in which they were queued
+    let (swept, sv) = crate::checks_book::mass_sweeps(ctx, "C05", if ctx.tier == Tier::Quick { &[1200, 4000, 66_000] } else { &[1200, 4000, 66_000, 200_000] }, true, &[]);
+    let mut out = out;
+    out.violations.extend(sv);
     let c = &out.census;
     let e = &eout.census;
     let mut inconclusive = floors(&[
+        ("tied_resting_orders_swept_by_single_aggressors", swept, 60_000),
         ("tie_insertions", c.tie_insertions, 1000),
         ("tied_histories", c.tied_histories, 500),
         ("drains", c.drains, 1000),
